@@ -65,6 +65,15 @@ func curatedLexSpecs() []*LSpec {
 			fragRule(seq(lit("q", "")), LAct{Kind: "pop"}, LAct{Kind: "push", Mode: 2}, LAct{Kind: "discard"})}},
 		&LMode{Name: "Two", Rules: []*LRule{tokRule(seq(lit("c", "")), LAct{Kind: "pop"}), tokRule(seq(lit("y", ""))),
 			fragRule(seq(lit("p", "")), LAct{Kind: "push", Mode: 1}, LAct{Kind: "pop"})}}))
+	// nesting of any depth: a mode that pushes itself (parentheses), the default mode re-entered from inside (interpolation)
+	out = append(out, finishSpec(
+		&LMode{Rules: []*LRule{tokRule(seq(lit("(", "")), LAct{Kind: "push", Mode: 1}), tokRule(seq(cls(false, "+", az))), ws}},
+		&LMode{Name: "In", Rules: []*LRule{tokRule(seq(lit("(", "")), LAct{Kind: "push", Mode: 1}), tokRule(seq(lit(")", "")), LAct{Kind: "pop"}),
+			tokRule(seq(cls(false, "+", RRange{'0', '9'}))), ws}}))
+	out = append(out, finishSpec(
+		&LMode{Rules: []*LRule{fragRule(seq(lit("\"", "")), LAct{Kind: "push", Mode: 1}), tokRule(seq(lit("}", "")), LAct{Kind: "pop"}), tokRule(seq(cls(false, "+", az))), ws}},
+		&LMode{Name: "Str", Rules: []*LRule{tokRule(seq(lit("${", "")), LAct{Kind: "push", Mode: 0}), tokRule(seq(lit("\"", "")), LAct{Kind: "pop"}),
+			tokRule(seq(cls(true, "", RRange{'"', '"'}, RRange{'$', '$'})))}}))
 	// priority: keyword vs identifier sharing states; a later rule whose every first character also starts an earlier rule
 	out = append(out, finishSpec(&LMode{Rules: []*LRule{
 		tokRule(seq(lit("0x", ""), cls(false, "+", RRange{'0', '9'}, RRange{'a', 'f'}))), tokRule(seq(lit("1", ""))),
